@@ -3,14 +3,15 @@
    (Properties_C01 .. C20) contain further theorems about the reference functions they use
    (MPolySpec.v for MPoly, RootIsoProofs.v for the Sturm count, SylvesterProofs.v for resultants, ...).
    Arithmetic of the reference algebraic numbers: RefAlgDet.v (Bareiss determinant), RefAlgAnn.v (resultant and
-   annihilating polynomials), RefAlgArith.v (rn_add / rn_sub / rn_mul ... by denotation). *)
+   annihilating polynomials), RefAlgSqfree.v (gcd and square-free part over a real closed field),
+   RefAlgArith.v (rn_add / rn_sub / rn_mul / rn_inv / rn_div / rn_pow by denotation). *)
 From Coq Require Import ZArith.
 From LP Require Import Scalar UPoly RefAlg.
 Set Warnings "-notation-overridden,-ambiguous-paths".
 From mathcomp Require Import all_ssreflect all_algebra all_real_closed.
 From mathcomp Require Import ssrZ.
 Set Warnings "notation-overridden,ambiguous-paths".
-From LP Require Import UPolySpec RefAlgSpec RefAlgLoops RefAlgOps RefAlgDet RefAlgAnn RefAlgArith.
+From LP Require Import UPolySpec RefAlgSpec RefAlgLoops RefAlgOps RefAlgDet RefAlgAnn RefAlgArith RefAlgSqfree.
 Import GRing.Theory Num.Theory.
 Local Open Scope ring_scope.
 
@@ -153,11 +154,30 @@ Theorem Base_ann_pow_root : forall (R : rcfType) (p : seq Z) (n : nat) (a : R),
 Proof. exact: ann_pow_root. Qed.
 Print Assumptions Base_ann_pow_root.
 
-(* G4: the operations, COND on two named premises about the real closed field R at hand:
-     count_open_correct_premise R : for square-free non-zero r and rationals l < h with r(l) <> 0 <> r(h),
-                                    count_open r l h = size (roots (pr r) (qr l) (qr h))   (interval Sturm count, C06)
-     psqfree_correct_premise R    : for p <> 0, psqfree p is non-zero, coprime with its derivative over R, and has the
-                                    same roots in R as p *)
+(* the reference gcd is a gcd over every real closed field, and the square-free part is non-zero, coprime with its
+   derivative over R, and has the same roots in R *)
+Theorem Base_pr_pgcd : forall (R : rcfType) (a b : seq Z),
+  Poly a != 0 :> {poly Z} -> (@pr R (pgcd a b) %= gcdp (pr a) (pr b))%R.
+Proof. exact: pr_pgcd. Qed.
+Print Assumptions Base_pr_pgcd.
+
+Theorem Base_psqfree_correct : forall (R : rcfType) (p : seq Z), Poly p != 0 :> {poly Z} ->
+  [/\ Poly (psqfree p) != 0 :> {poly Z}, coprimep (@pr R (psqfree p)) (@pr R (psqfree p))^`()
+    & forall v : R, root (pr (psqfree p)) v = root (pr p) v].
+Proof. exact: psqfree_correct. Qed.
+Print Assumptions Base_psqfree_correct.
+
+(* G4: the operations.  The inverse is unconditional.  The others are COND on ONE named premise about the real closed
+   field R at hand (the interval Sturm count of C06):
+     count_open_correct_premise R : for non-zero r coprime with its derivative over R and rationals l < h with
+                                    r(l) <> 0 <> r(h),  count_open r l h = size (roots (pr r) (qr l) (qr h)) *)
+Theorem Base_rn_inv : forall (R : rcfType) (fuel : nat) (x z : rnum) (a : R),
+  rn_denotes x a -> rn_inv fuel x = Some z -> a != 0 /\ rn_denotes z a^-1.
+Proof. exact: rn_inv_spec. Qed.
+Print Assumptions Base_rn_inv.
+
+(* the selection loop: encl_ok = the enclosure computed from the current representations is the point v or an open
+   interval around v *)
 Theorem Base_rn_select_cond : forall (R : rcfType), count_open_correct_premise R ->
   forall (fuel : nat) (r : seq Z) encl (x y z : rnum) (a b v : R),
   Poly r != 0 :> {poly Z} -> coprimep (@pr R r) (@pr R r)^`() -> root (pr r) v -> encl_ok encl a b v ->
@@ -165,20 +185,32 @@ Theorem Base_rn_select_cond : forall (R : rcfType), count_open_correct_premise R
 Proof. exact: rn_select_spec_cond. Qed.
 Print Assumptions Base_rn_select_cond.
 
-Theorem Base_rn_add_cond : forall (R : rcfType), count_open_correct_premise R -> psqfree_correct_premise R ->
+Theorem Base_rn_add_cond : forall (R : rcfType), count_open_correct_premise R ->
   forall (fuel : nat) (x y z : rnum) (a b : R),
   rn_denotes x a -> rn_denotes y b -> rn_add fuel x y = Some z -> rn_denotes z (a + b).
-Proof. exact: rn_add_spec_cond. Qed.
+Proof. exact: rn_add_spec_sturm. Qed.
 Print Assumptions Base_rn_add_cond.
 
-Theorem Base_rn_sub_cond : forall (R : rcfType), count_open_correct_premise R -> psqfree_correct_premise R ->
+Theorem Base_rn_sub_cond : forall (R : rcfType), count_open_correct_premise R ->
   forall (fuel : nat) (x y z : rnum) (a b : R),
   rn_denotes x a -> rn_denotes y b -> rn_sub fuel x y = Some z -> rn_denotes z (a - b).
-Proof. exact: rn_sub_spec_cond. Qed.
+Proof. exact: rn_sub_spec_sturm. Qed.
 Print Assumptions Base_rn_sub_cond.
 
-Theorem Base_rn_mul_cond : forall (R : rcfType), count_open_correct_premise R -> psqfree_correct_premise R ->
+Theorem Base_rn_mul_cond : forall (R : rcfType), count_open_correct_premise R ->
   forall (fuel : nat) (x y z : rnum) (a b : R),
   rn_denotes x a -> rn_denotes y b -> rn_mul fuel x y = Some z -> rn_denotes z (a * b).
-Proof. exact: rn_mul_spec_cond. Qed.
+Proof. exact: rn_mul_spec_sturm. Qed.
 Print Assumptions Base_rn_mul_cond.
+
+Theorem Base_rn_div_cond : forall (R : rcfType), count_open_correct_premise R ->
+  forall (fuel : nat) (x y z : rnum) (a b : R),
+  rn_denotes x a -> rn_denotes y b -> rn_div fuel x y = Some z -> b != 0 /\ rn_denotes z (a / b).
+Proof. exact: rn_div_spec_sturm. Qed.
+Print Assumptions Base_rn_div_cond.
+
+Theorem Base_rn_pow_cond : forall (R : rcfType), count_open_correct_premise R ->
+  forall (fuel : nat) (x z : rnum) (a : R) (n : nat),
+  rn_denotes x a -> rn_pow fuel x n = Some z -> rn_denotes z (a ^+ n).
+Proof. exact: rn_pow_spec_sturm. Qed.
+Print Assumptions Base_rn_pow_cond.
